@@ -254,7 +254,8 @@ def plans_C05(g, tier):
 
 def plans_C06(g, tier):
     n = 3
-    alpha = [g.call(0, F1, a) for a in range(n)] + [g.release(i) for i in range(n)] + [g.op(OP_DESTROY_SEQ, s1=q) for q in (0, 1)] + [g.op(OP_MOVE_SEQ, s1=0), g.op(OP_ASSIGN_SEQ, s1=0), g.op(OP_ASSIGN_SEQ, s1=0, s2=1, k1=1), g.op(OP_ASSIGN_SEQ, s1=1, s2=0, k1=1)]
+    alpha = [g.call(0, F1, a) for a in range(n)] + [g.release(i) for i in range(n)] + [g.op(OP_DESTROY_SEQ, s1=q) for q in (0, 1)] + [g.op(OP_MOVE_SEQ, s1=0), g.op(OP_ASSIGN_SEQ, s1=0), g.op(OP_ASSIGN_SEQ, s1=0, s2=1, k1=1), g.op(OP_ASSIGN_SEQ, s1=1, s2=0, k1=1),
+                                                                                                                                                   g.op(OP_ASSIGN_SEQ, s1=0, s2=1, k1=2), g.op(OP_DESTROY_MOCK, obj=0)]
     mask = F_QSEQ | F_REPCOUNT | F_REPCULPRIT | F_REPDETAIL | F_KIND
     if tier == 'quick':
         return [dict(name='seq3teardown', mask=mask, du=0, dm=5, alphabet=alpha, prefixes=seq_configs(g, 3, [(1, 1), (0, INF), (2, 2)], any_matchers=False)),
@@ -460,6 +461,7 @@ def plans_C03(g, tier):
            g.create(3, g.shape(fn=F1, mk1='ANY', tform='RT', seqar=2, clauses='QTA'), obj=0, lo=1, hi=0, s1=0, s2=1)]
     seqd = g.create(2, g.shape(fn=G1, mk1='ANY', tform='RT', seqar=1), obj=0, lo=1, hi=1, s1=0)
     alpha = [g.call(0, F1, 1), g.call(0, F1, 2), g.release(0), g.release(1)] + bad + [seqd, g.call(0, G1, 1), g.op(OP_DESTROY_SEQ, s1=0), g.op(OP_DESTROY_MOCK, obj=0)]
+    alpha.append(g.op(OP_ARM_OK, k1=9))   # the OK callback (user code) repeats the call it is told about: the count of that call is complete by then
     # the same bookkeeping must hold after the mock object has been moved (active and saturated expectations follow it)
     mpre = []
     for kw, lo, hi in c03_forms(g):
@@ -704,7 +706,7 @@ def plans_C16(g, tier):
         A.append(g.create(slot, g.shape(fn=F1, mk1='EQ', tform='ALLOW', nse=1), obj=0, k1=0, semode=(2, 0, 0)))             # side effect calls g(): OK reports in acceptance order
         A.append(g.release(slot))
     A += [g.call(0, F1, a) for a in (0, 1, 2)] + [g.call(0, G1, 1), g.call(0, Z0, 0), g.call(0, F1, 2, in_catch=True), g.call(0, F1, 1, in_catch=True)]
-    A += [g.op(OP_SET_REPORTER, k1=1, k2=1), g.op(OP_SET_REPORTER, k1=2, k2=0), g.op(OP_SET_REPORTER, k1=0, k2=1), g.op(OP_ARM_OK, k1=2)]
+    A += [g.op(OP_SET_REPORTER, k1=1, k2=1), g.op(OP_SET_REPORTER, k1=2, k2=0), g.op(OP_SET_REPORTER, k1=0, k2=1), g.op(OP_ARM_OK, k1=2), g.op(OP_ARM_OK, k1=9)]
     if tier == 'quick':
         return [dict(name='ok3', mask=M_C16, du=2, dm=6, alphabet=A)]
     return [dict(name='ok3', mask=M_C16, du=3, dm=8, alphabet=A)]
